@@ -61,6 +61,19 @@ func c20Seeds(loader string, r *rand.Rand) [][]byte {
 		for _, s := range c20JSONRuleSeeds {
 			out = append(out, []byte(s))
 		}
+		// generated operator trees (the C18 renderer)
+		g := &Gen{R: r, Pool: catalogBy(func(v VarSpec) bool { return v.Class != "slice-expr" && v.Class != "map-expr" }), Calls: true, Strs: true}
+		for i := 0; i < 3; i++ {
+			e := jsonNormalise(g.Expr(TBool, 2+r.Intn(3)))
+			if !jsonExpressible(e) || !(isBinOp(e.Op) || e.Op == "call" || e.Op == "not") {
+				continue
+			}
+			jr := &jsonRender{r: r, forms: map[string]int{}}
+			rule := c18Rule("G", "generated", int64(r.Intn(9)), jr.object(e), []interface{}{map[string]interface{}{"set": []interface{}{"F.A", 1.0}}})
+			if b, err := json.Marshal([]interface{}{rule}); err == nil {
+				out = append(out, b)
+			}
+		}
 		d := 4 + r.Intn(60)
 		out = append(out, []byte(`{"name":"R","desc":"d","salience":1,"when":`+nested(`{"not":[`, `]}`, d, `{"eq":["F.A",1]}`)+`,"then":["F.A = 1"]}`))
 		out = append(out, []byte(`{"name":"R","desc":"d","salience":1,"when":`+nested(`{"and":[{"const":true},`, `]}`, d, `{"eq":["F.A",1]}`)+`,"then":["F.A = 1"]}`))
